@@ -4,7 +4,7 @@
 # check there and reports whether it fired. /repo itself is never touched.
 set -u
 ROOT="$(cd "$(dirname "$0")/.." && pwd)"
-NAME="$1"; ID="$2"; TIER="${3:-quick}"
+NAME="$1"; ID="$2"; IDS="$2"; TIER="${3:-quick}"
 W=/tmp/vst/w_$$
 mkdir -p $W/verif /tmp/vst/target
 rsync -a --exclude target --exclude .git /repo/ $W/repo/
@@ -18,6 +18,10 @@ if ! cargo build --release --offline >$W/build.log 2>&1; then
   echo "SELFTEST $NAME: mutant does not compile"; tail -20 $W/build.log; rm -rf $W; exit 3
 fi
 cp /tmp/vst/target/release/vcheck $W/vcheck
+case "$IDS" in *C15*)
+  cargo build --profile checked --offline >>$W/build.log 2>&1
+  mkdir -p $W/verif/harness/target/checked && cp /tmp/vst/target/checked/vcheck $W/verif/harness/target/checked/vcheck ;;
+esac
 flock -u 8
 VERIF_ROOT=$W/verif VERIF_REPO=$W/repo $W/vcheck "$ID" "$TIER" >$W/out.log 2>&1
 RC=$?
